@@ -83,13 +83,13 @@ func cloneDRR(d *pb.DataRowRecord) *pb.DataRowRecord {
 
 // a client-side view of one stream: builds requests (some depend on earlier responses) and checks responses
 type convo struct {
-	part     string
-	mat      *material
-	state    string // uninit | init | rejected
-	lastRec  *pb.DataRowRecord
-	lastPay  []byte
-	n        int
-	variant  int
+	part    string
+	mat     *material
+	state   string // uninit | init | rejected
+	lastRec *pb.DataRowRecord
+	lastPay []byte
+	n       int
+	variant int
 }
 
 func (c *convo) build(kind int) (*pb.SessionRequest, []byte) {
@@ -199,8 +199,8 @@ func (c *convo) check(kind int, want []byte, resp *pb.SessionResponse) string {
 // ---- in-process stream
 
 type fakeStream struct {
-	ctx   context.Context
-	next  func() *pb.SessionRequest // nil = end of stream
+	ctx    context.Context
+	next   func() *pb.SessionRequest // nil = end of stream
 	onSend func(*pb.SessionResponse)
 }
 
@@ -212,16 +212,40 @@ func (f *fakeStream) Recv() (*pb.SessionRequest, error) {
 	return r, nil
 }
 func (f *fakeStream) Send(r *pb.SessionResponse) error { f.onSend(r); return nil }
-func (f *fakeStream) SetHeader(metadata.MD) error       { return nil }
-func (f *fakeStream) SendHeader(metadata.MD) error      { return nil }
-func (f *fakeStream) SetTrailer(metadata.MD)            {}
-func (f *fakeStream) Context() context.Context          { return f.ctx }
-func (f *fakeStream) SendMsg(m any) error               { return nil }
-func (f *fakeStream) RecvMsg(m any) error               { return nil }
+func (f *fakeStream) SetHeader(metadata.MD) error      { return nil }
+func (f *fakeStream) SendHeader(metadata.MD) error     { return nil }
+func (f *fakeStream) SetTrailer(metadata.MD)           {}
+func (f *fakeStream) Context() context.Context         { return f.ctx }
+func (f *fakeStream) SendMsg(m any) error              { return nil }
+func (f *fakeStream) RecvMsg(m any) error              { return nil }
 
-func newApp() *server.AppEncryption {
-	return server.NewAppEncryption(&server.Options{ServiceName: "svc", ProductID: "prod", Metastore: "memory", KMS: "static",
-		ExpireAfter: 24 * time.Hour, CheckInterval: time.Hour})
+func newApp() *server.AppEncryption { return newAppOpt(false) }
+
+// newAppOpt builds the service exactly as the sidecar's main does, from an Options value; with sess the shared
+// session cache is on and small (2 sessions), so that streams of three partitions evict each other's sessions while
+// those are in use.
+func newAppOpt(sess bool) *server.AppEncryption {
+	o := &server.Options{ServiceName: "svc", ProductID: "prod", Metastore: "memory", KMS: "static",
+		ExpireAfter: 24 * time.Hour, CheckInterval: time.Hour}
+	if sess {
+		o.EnableSessionCaching = true
+		o.SessionCacheMaxSize = 2
+		o.SessionCacheDuration = time.Hour
+	}
+	return server.NewAppEncryption(o)
+}
+
+// materialsFor makes one material per partition: its own genuine record plus the next partition's as the foreign one.
+func materialsFor(app *server.AppEncryption, parts []string) map[string]*material {
+	recs := map[string]*material{}
+	for _, p := range parts {
+		m := makeMaterialPart(app, p)
+		recs[p] = m
+	}
+	for i, p := range parts {
+		recs[p].foreign = recs[parts[(i+1)%len(parts)]].genuine
+	}
+	return recs
 }
 
 // runSeq plays one request sequence on a fresh stream; returns (signature, detail).
@@ -273,6 +297,12 @@ func runSeq(app *server.AppEncryption, mat *material, seq []int, variant int) (s
 }
 
 func makeMaterial(app *server.AppEncryption) *material {
+	m := makeMaterialPart(app, "partA")
+	m.foreign = makeMaterialPart(app, "partB").genuine
+	return m
+}
+
+func makeMaterialPart(app *server.AppEncryption, own string) *material {
 	m := &material{}
 	grab := func(part string) (*pb.DataRowRecord, []byte) {
 		var rec *pb.DataRowRecord
@@ -299,64 +329,71 @@ func makeMaterial(app *server.AppEncryption) *material {
 		}
 		return rec, pl
 	}
-	m.genuine, m.payload = grab("partA")
-	m.foreign, _ = grab("partB")
+	m.genuine, m.payload = grab(own)
 	return m
 }
 
 func TestC19(t *testing.T) {
 	r := ev.Start("C19", "exploration")
-	r.Rule("(1) every request sequence up to length L over {get-session valid / empty id, encrypt, decrypt genuine / foreign-partition / bit-flipped / structurally empty record (4 shapes), empty request}, each followed by end-of-stream, is played through AppEncryption.Session (built by NewAppEncryption with memory metastore + static KMS) on an in-process stream; a reference protocol automaton {uninitialised, initialised, rejected-get-session} gives the expected response class per request, responses are counted per request, panics are recovered per sequence. (2) seeded sequences of length 40 on 8 concurrent streams per round over real gRPC (bufconn) under the race detector, same automaton per stream. Distinct+non-trivial: distinct sequences that reached an initialised session.")
+	r.Rule("(1) every request sequence up to length L over {get-session valid / empty id, encrypt, decrypt genuine / foreign-partition / bit-flipped / structurally empty record (4 shapes), empty request}, each followed by end-of-stream, is played through AppEncryption.Session (built by NewAppEncryption from an Options value: memory metastore + static KMS, once without and once with the shared session cache of 2 sessions) on an in-process stream; a reference protocol automaton {uninitialised, initialised, rejected-get-session} gives the expected response class per request, responses are counted per request, panics are recovered per sequence. (2) seeded sequences of length 40 on 8 concurrent streams per round, spread over three partitions (so that cached sessions are shared between streams and evicted while in use), over real gRPC (bufconn) under the race detector, for both server variants, same automaton per stream. Distinct+non-trivial: distinct sequences that reached an initialised session.")
 	r.Assume("the server binary's main() is not exercised, only pkg/server; a handler panic under a real grpc.Server kills the process (detected by the check script as a crash)")
-	app := newApp()
-	mat := makeMaterial(app)
-	L := ev.Pick(4, 5)
-	seq := make([]int, 0, L)
 	n := 0
-	var rec func()
-	rec = func() {
-		if len(seq) > 0 {
-			n++
-			journal(fmt.Sprintf("C19 seq %v", seq))
-			sig, detail := runSeq(app, mat, seq, n)
-			r.Eval(1)
-			for _, k := range seq {
-				if k == kGetValid {
-					r.Distinct(fmt.Sprint(seq))
-					break
+	Ls := []int{ev.Pick(4, 5), ev.Pick(3, 4)}
+	for vi, sess := range []bool{false, true} {
+		app := newAppOpt(sess)
+		mat := makeMaterial(app)
+		L := Ls[vi]
+		seq := make([]int, 0, L)
+		var rec func()
+		rec = func() {
+			if len(seq) > 0 {
+				n++
+				journal(fmt.Sprintf("C19 sess=%v seq %v", sess, seq))
+				sig, detail := runSeq(app, mat, seq, n)
+				r.Eval(1)
+				for _, k := range seq {
+					if k == kGetValid {
+						r.Distinct(fmt.Sprint(sess, seq))
+						break
+					}
+				}
+				if sig != "" {
+					r.Violation(sig, detail, map[string]any{"engine": "grpcsrv/in-process", "session_caching": sess, "sequence": fmt.Sprint(seq)})
+				}
+				if n%977 == 0 {
+					names := make([]string, len(seq))
+					for k, s := range seq {
+						names[k] = kindNames[s]
+					}
+					r.Sample(map[string]any{"session_caching": sess, "sequence": names})
 				}
 			}
-			if sig != "" {
-				r.Violation(sig, detail, map[string]any{"engine": "grpcsrv/in-process", "sequence": fmt.Sprint(seq)})
+			if len(seq) == L {
+				return
 			}
-			if n%977 == 0 {
-				names := make([]string, len(seq))
-				for k, s := range seq {
-					names[k] = kindNames[s]
-				}
-				r.Sample(map[string]any{"sequence": names})
+			for k := 0; k < nKinds; k++ {
+				seq = append(seq, k)
+				rec()
+				seq = seq[:len(seq)-1]
 			}
 		}
-		if len(seq) == L {
-			return
-		}
-		for k := 0; k < nKinds; k++ {
-			seq = append(seq, k)
-			rec()
-			seq = seq[:len(seq)-1]
-		}
+		rec()
 	}
-	rec()
 	r.Count("in_process_sequences", int64(n))
 	r.Exhaustive(true)
-	r.Extra("max_length", L)
-	concurrentStreams(t, r, mat)
+	r.Extra("max_length", Ls)
+	if r.Violations() == 0 {
+		// (a handler that already answers sequential streams wrongly would only make lock-step clients wait)
+		concurrentStreams(t, r, false)
+		concurrentStreams(t, r, true)
+	}
 	r.Finish(t)
 }
 
-func concurrentStreams(t *testing.T, r *ev.Run, _ *material) {
-	app := newApp()
-	mat := makeMaterial(app)
+func concurrentStreams(t *testing.T, r *ev.Run, sess bool) {
+	app := newAppOpt(sess)
+	parts := []string{"partA", "partB", "partC"}
+	mats := materialsFor(app, parts)
 	lis := bufconn.Listen(1 << 20)
 	srv := grpc.NewServer()
 	pb.RegisterAppEncryptionServer(srv, app)
@@ -369,9 +406,9 @@ func concurrentStreams(t *testing.T, r *ev.Run, _ *material) {
 	}
 	defer conn.Close()
 	client := pb.NewAppEncryptionClient(conn)
-	rounds := ev.Pick(12, 250)
-	for round := 0; round < rounds; round++ {
-		journal(fmt.Sprintf("C19 concurrent round %d", round))
+	rounds := ev.Pick(8, 150)
+	for round := 0; round < rounds && r.Violations() == 0; round++ {
+		journal(fmt.Sprintf("C19 concurrent sess=%v round %d", sess, round))
 		var wg sync.WaitGroup
 		for s := 0; s < 8; s++ {
 			s := s
@@ -386,7 +423,8 @@ func concurrentStreams(t *testing.T, r *ev.Run, _ *material) {
 					r.Violation("c19-grpc-open-failed", err.Error(), nil)
 					return
 				}
-				c := &convo{part: "partA", mat: mat, state: "uninit", variant: s}
+				part := parts[(round+s)%len(parts)]
+				c := &convo{part: part, mat: mats[part], state: "uninit", variant: s}
 				var kinds []string
 				for i := 0; i < 40; i++ {
 					kind := rng.Intn(nKinds)
@@ -408,7 +446,7 @@ func concurrentStreams(t *testing.T, r *ev.Run, _ *material) {
 						continue
 					}
 					if p := c.check(kind, want, resp); p != "" {
-						r.Violation("c19-protocol-concurrent:"+kindNames[kind], fmt.Sprintf("stream %d round %d, request #%d of %v: %s", s, round, i+1, kinds, p), map[string]any{"sequence": kinds})
+						r.Violation("c19-protocol-concurrent:"+kindNames[kind], fmt.Sprintf("session_caching=%v partition %s stream %d round %d, request #%d of %v: %s", sess, part, s, round, i+1, kinds, p), map[string]any{"sequence": kinds, "session_caching": sess})
 						return
 					}
 				}
